@@ -149,8 +149,9 @@ def helper_correspondence(ctx, scen_by_variant, meta, rng):
                 n = pick_n(sn, func, rng)
                 nt = 2 if needs_two_trailing(func, spec) else int(rng.integers(0, 4))
                 trail = tuple(int(x) for x in rng.integers(1, 4, size=nt))
-                if name.endswith('div_1d') and trail[0] == n:
-                    trail = (n + 1,) + trail[1:]
+                if name.endswith('div_1d'):
+                    n = 1
+                    trail = (max(trail[0], 2),) + trail[1:]
                 args, flat = build_args(spec, n, trail, rng, variant, func)
                 out = real_call(variant, func, args)
                 rr = meta[name][1]
@@ -360,8 +361,13 @@ def raising_scenarios(ctx, variant, scen, raises, rng):
         n = pick_n(spec[2], func, rng)
         args, flat = build_args(spec[3], n, (2, 3), rng, variant, func)
         key = 'jax-div-hdiv-field' if name == 'jx_div_hdiv' else f'{name}-raises'
+        if name == 'jx_div_1d':
+            n = 1
         try:
-            real_call(variant, func, args)
+            H, JH = _mods()
+            out = getattr(H if variant == 'np' else JH, func)(*args)
+            if out is None:
+                raise TypeError('the helper returned None')
         except Exception as e:  # noqa: BLE001 - the exception IS the observation
             ctx.fail(key, f'{"skfem.autodiff.helpers" if variant == "jx" else "skfem.helpers"}.{func} raises '
                      f'{type(e).__name__} on a valid argument (scenario {name}: {what})',
